@@ -9,7 +9,7 @@ Definition show_peer (p : bool) : string := if p then "1" else "0".
 Definition show_res (r : res) : string :=
   match r with
   | ROk n => "ok:" ++ show_nat n
-  | RDeclared => "err:DeclaredError" | RUnknown => "err:UnknownRemoteError"
+  | RDeclared => "err:DeclaredError" | RFatal => "err:FatalError" | RUnknown => "err:UnknownRemoteError"
   | RUnhandled => "err:UnhandledCommand" | RLost => "err:ConnectionDone"
   end.
 Definition show_ev (e : ev) : string :=
@@ -17,7 +17,9 @@ Definition show_ev (e : ev) : string :=
   | EInvoke p c => "I" ++ show_peer p ++ ":" ++ show_nat c
   | EFire p c => "F" ++ show_peer p ++ ":" ++ show_nat c
   | EResult c r => "C" ++ show_nat c ++ "=" ++ show_res r
+  | ENested c => "N" ++ show_nat c
   | ELost => "X"
+  | EQuit => "Q"
   | ENoop => "-"
   end.
 Definition show_group (g : list ev) : string :=
